@@ -1,0 +1,55 @@
+//go:build verif
+
+// Machine-checked contracts for package signjar (comment-only; see /verif/DESIGN.md).
+
+package signjar
+
+//@ func keepFile
+//@   property C03
+//@   pure
+//@
+//@ func sigNames
+//@   property C03
+//@   ensures @names_fit_a_zip_name_field len(ret0) <= 3 * len(alias) + 16 && len(ret1) <= 3 * len(alias) + 16
+//@   modifies nothing
+//@
+//@ func (*JarDigest).shouldDeflate
+//@   property C03
+//@   requires jd.inz != nil && forall(i, 0, len(jd.inz.File), jd.inz.File[i] != nil)
+//@   modifies nothing
+//@
+//@ func (*JarDigest).insertSignature
+//@   property C03
+//@   requires len(alias) <= 10000 && len(jarMagic) <= 65535
+//@   requires @every_member_listed_once forall(i, 0, len(jd.inz.File), forall(j, 0, len(jd.inz.File), i != j ==> jd.inz.File[i] != jd.inz.File[j]))
+//@   requires cert != nil && jd.inz != nil && forall(i, 0, len(jd.inz.File), jd.inz.File[i] != nil && zipslicer.fileOK(jd.inz.File[i]))
+//@   requires 0 <= jd.inz.DirLoc && jd.inz.DirLoc <= jd.inz.Size && jd.inz.Size <= 1152921504606846976
+//@   ghost moved int = 0
+//@   ghost covered int = 0
+//@   ghost lastSize int = 0
+//@   ghost adds int = 0
+//@   ghost news int = 0
+//@   ghost insertAt int = 0
+//@   ghost dirDone bool = false
+//@   before call (*zipslicer.Directory).NewFile(z, _, _, _, w, _, _, _): assert @signature_members_written_to_the_inserted_blob z == outz && w == iface(addr(zipcon)) && adds == 0
+//@   on call (*zipslicer.Directory).NewFile(z, _, _, _, _, _, _, _) ret (r, e): insertAt = ite(news == 0, atcall(z.DirLoc), insertAt); news = news + 1
+//@   on call (*zipslicer.File).GetTotalSize(_) ret (n, e): lastSize = n
+//@   before call (*binpatch.PatchSet).Add(_, off, sz, blob): assert @first_patch_only_inserts adds == 0 ==> sz == 0 && off == insertAt
+//@   before call (*binpatch.PatchSet).Add(_, off, sz, blob): assert @only_signature_files_are_cut_out adds > 0 && !dirDone ==> \
+//@        !keepFile(f.Name) && off == f.Offset && sz == lastSize && len(blob) == 0
+//@   before call (*binpatch.PatchSet).Add(_, off, sz, blob): assert @cuts_follow_file_order off >= covered
+//@   before call (*binpatch.PatchSet).Add(_, off, sz, blob): assert @directory_tail_replaced_as_a_whole dirDone ==> off == jd.inz.DirLoc && sz == jd.inz.Size - jd.inz.DirLoc
+//@   on call (*binpatch.PatchSet).Add(_, off, sz, blob) ret (): moved = moved + len(blob) - sz; covered = off + sz; adds = adds + 1
+//@   before call (*zipslicer.Directory).AddFile(z, m): assert @kept_members_stay_where_their_bytes_are keepFile(f.Name) && z == outz && m == f && \
+//@        z.DirLoc == f.Offset + moved && f.Offset >= covered && adds > 0
+//@   on call (*zipslicer.Directory).AddFile(_, _) ret (r, e): covered = atcall(f.Offset) + lastSize
+//@   before call (*zipslicer.Directory).WriteDirectory(z, _, _, _): assert @new_directory_starts_where_the_moved_contents_end z == outz && \
+//@        z.DirLoc == jd.inz.DirLoc + moved && covered <= jd.inz.DirLoc && !dirDone
+//@   on call (*zipslicer.Directory).WriteDirectory(_, _, _, _) ret (e): dirDone = true
+//@   loop 0 sig "for _, f := range jd.inz.File" invariant adds > 0 && !dirDone && covered == lastEnd && moved == shift && outz != nil && outz != jd.inz && patch != nil && \
+//@        binpatch.repOK(patch) && binpatch.rangesOK(patch) && 0 <= covered && jd.inz == old(jd.inz) && jd.inz.DirLoc == old(jd.inz.DirLoc) && jd.inz.Size == old(jd.inz.Size) && \
+//@        0 <= moved + covered && moved <= 4294967295
+//@   loop 0 invariant @members_to_come_are_well_formed forall(i, rangeindex + 1, len(pre(jd.inz.File)), pre(jd.inz.File)[i] != nil && zipslicer.fileOK(pre(jd.inz.File)[i]))
+//@   loop 0 invariant @every_member_listed_once forall(i, 0, len(pre(jd.inz.File)), forall(j, 0, len(pre(jd.inz.File)), i != j ==> pre(jd.inz.File)[i] != pre(jd.inz.File)[j]))
+//@   loop 0 invariant @new_directory_in_its_own_memory outz.File == nil || allocated(outz.File)
+//@   ensures @patch_returned_on_success ret1 == nil ==> ret0 != nil && dirDone
